@@ -127,6 +127,10 @@ def gen_ranked_profile(rng, *, allow_ties=False, int_weights=False, min_c=1, max
         "candidates": names,
         "ballots": [{"r": r, "w": fs(w)} for r, w in ballots],
     }
+    used = {c for r, w in ballots if w > 0 for g in r for c in g}
+    if used == set(names) and rng.random() < 0.2:
+        # let the profile infer its candidates from the ballots (same set; the listing then comes out of a set)
+        jp["infer"] = True
     shape = {"n": n, "names": fam, "wfam": wfam, "law": law, "ghosts": len(ghosts), "nb": len(ballots), "zero_w": zero_w, "eps": eps}
     return jp, shape
 
@@ -265,7 +269,24 @@ def build_election(case):
 # ------------------------------------------------------------------------------ reduction steps
 
 
+def _fix_infer(jp):
+    if jp.get("infer"):
+        used = {c for b in jp["ballots"] if Fraction(b["w"]) > 0 for g in (b.get("r") or []) for c in g} | {c for b in jp["ballots"] for c in (b.get("s") or {})}
+        if used != set(jp["candidates"]):
+            jp = {k: v for k, v in jp.items() if k != "infer"}
+    return jp
+
+
 def shrink_profile_steps(jp):
+    for x in _shrink_profile_steps(jp):
+        if jp.get("infer"):
+            x = _fix_infer(dict(x, infer=True))
+        yield x
+    if jp.get("infer"):
+        yield {k: v for k, v in jp.items() if k != "infer"}
+
+
+def _shrink_profile_steps(jp):
     """yield structurally smaller variants of a JSON profile (most aggressive first)"""
     bs = jp["ballots"]
     cands = jp["candidates"]
